@@ -2,6 +2,7 @@ package rules
 
 import (
 	"go/token"
+	"go/types"
 
 	"golang.org/x/tools/go/ssa"
 
@@ -172,4 +173,241 @@ func c10LRUSampleUnfiltered(r *core.Run) {
 		})
 	}
 	r.Floor(rule, cnt, 1)
+}
+
+// customConfigOverrides: a DMap listed in DMaps.Custom gets exactly the listed values,
+// zero included ("no TTL", "no idle limit", "no key limit" are meaningful settings that
+// switch a cluster-wide default off for this DMap). In dmapConfig.load every store of a
+// custom value into the DMap's configuration is unconditional, or guarded only by "differs
+// from the current value". A guard on the custom value itself (`if cs.TTLDuration != 0`)
+// turns zero into "inherit": a lock taken without timeout in a DMap configured without TTL
+// would silently get the cluster-wide TTL and expire while it is held.
+func customConfigOverrides(r *core.Run) {
+	const rule = "custom-config-overrides"
+	name := dmapPkg + ".(*dmapConfig).load"
+	fn := r.Need(rule, name)
+	if fn == nil {
+		return
+	}
+	f := fn.SSA
+	want := map[string]string{"maxIdleDuration": "MaxIdleDuration", "ttlDuration": "TTLDuration", "evictionPolicy": "EvictionPolicy", "maxKeys": "MaxKeys", "maxInuse": "MaxInuse", "lruSamples": "LRUSamples"}
+	// the custom entry: fields read off the value looked up in dc.Custom
+	isCustomField := func(v ssa.Value, field string) bool {
+		v = core.StripConv(v)
+		switch x := v.(type) {
+		case *ssa.Field:
+			return structOf(x.X.Type()).Field(x.Field).Name() == field
+		case *ssa.UnOp:
+			if fa, ok := x.X.(*ssa.FieldAddr); ok {
+				return core.LastField(fa) == field && !isRecvField(f, fa)
+			}
+		}
+		return false
+	}
+	seen := map[string]bool{}
+	core.Instrs(f, func(in ssa.Instruction) {
+		st, ok := in.(*ssa.Store)
+		if !ok {
+			return
+		}
+		fa, ok := st.Addr.(*ssa.FieldAddr)
+		if !ok || !isRecvField(f, fa) {
+			return
+		}
+		field := core.LastField(fa)
+		cf, isWanted := want[field]
+		if !isWanted || !isCustomField(st.Val, cf) {
+			return
+		}
+		seen[field] = true
+		bad := ""
+		for _, cd := range core.Conditions(st.Block()) {
+			bin, isBin := cd.Val.(*ssa.BinOp)
+			if !isBin {
+				continue // the map lookup's ok, phis of it
+			}
+			mentionsCustom := isCustomField(bin.X, cf) || isCustomField(bin.Y, cf)
+			mentionsOwn := (core.LastField(bin.X) == field && !isCustomField(bin.X, cf)) || (core.LastField(bin.Y) == field && !isCustomField(bin.Y, cf))
+			if mentionsCustom && !mentionsOwn {
+				bad = "the store is guarded by a test of the custom value itself"
+			}
+		}
+		r.Check(bad == "", rule, name+" "+field, site(r, instrPos(st)),
+			"the custom value is stored whatever it is (at most guarded by 'differs from the current value')",
+			bad+": a zero in DMaps.Custom (no TTL, no idle limit, no key limit) no longer overrides the cluster-wide default — e.g. a lock without timeout in such a DMap gets the default TTL and expires while it is held")
+	})
+	for _, field := range []string{"maxIdleDuration", "ttlDuration", "maxKeys", "maxInuse"} {
+		if !seen[field] {
+			r.Bad(rule, name+" "+field, site(r, f.Pos()), "the custom "+want[field]+" is never stored into the DMap's configuration")
+		}
+	}
+}
+
+// isRecvField: fa addresses a field of the method's receiver.
+func isRecvField(f *ssa.Function, fa *ssa.FieldAddr) bool {
+	return len(f.Params) > 0 && fa.X == ssa.Value(f.Params[0])
+}
+
+// c10IdleJudgedOnOwnerRecord: whether a key is idle is decided from the access record of
+// the partition owner's own storage (Engine.GetLastAccess under the fragment lock, in
+// isKeyIdleOnFragment). The copies collected for a read carry other access times — backup
+// copies are stored with lastAccess 0 and the comparator may put one of them first — so
+// judging idleness from a collected version makes the first Get after a Put answer
+// not-found. Rule: MaxIdleDuration is read nowhere but in the configuration loader and in
+// isKeyIdleOnFragment.
+func c10IdleJudgedOnOwnerRecord(r *core.Run) {
+	const rule = "idle-judged-on-owner-record"
+	p := r.P
+	allowed := map[string]bool{dmapPkg + ".(*dmapConfig).load": true, fnIdleFrag: true}
+	readers := 0
+	n := counter{}
+	for _, fn := range p.FuncList {
+		if fn.SSA == nil || skipPkg(fn) || core.RelPkg(fn.Pkg.PkgPath) != dmapPkg {
+			continue
+		}
+		for _, f := range core.AllSSA(fn.SSA) {
+			core.Instrs(f, func(in ssa.Instruction) {
+				fa, ok := in.(*ssa.FieldAddr)
+				if !ok || core.LastField(fa) != "maxIdleDuration" {
+					return
+				}
+				reads := false
+				for _, ref := range *fa.Referrers() {
+					if u, ok := ref.(*ssa.UnOp); ok && u.Op == token.MUL {
+						reads = true
+					}
+				}
+				if !reads {
+					return
+				}
+				readers++
+				if allowed[fn.Name] {
+					return
+				}
+				if !p.IsRecorded(fn) {
+					// a helper extracted from the idle check: all its callers are allowed readers
+					ok := false
+					for _, cs := range p.CallersOf(fn.Obj) {
+						if !allowed[cs.Caller.Name] {
+							ok = false
+							break
+						}
+						ok = true
+					}
+					if ok {
+						return
+					}
+				}
+				r.Bad(rule, n.next(fn.Name+" reads MaxIdleDuration"), site(r, instrPos(fa)),
+					fn.Name+" judges idleness itself instead of asking isKeyIdleOnFragment: only the partition owner's own access record (Engine.GetLastAccess under the fragment lock) says when a key was last used; a collected version may be a backup copy with no access time, so a key that was just written reads as idle since 1970")
+			})
+		}
+	}
+	r.OK(rule, "readers of dmapConfig.maxIdleDuration", "-", "MaxIdleDuration is read by the configuration loader and isKeyIdleOnFragment only")
+	r.Floor(rule, readers, 2)
+}
+
+// c10OwnedCountByCurrentOwner: the per-partition share of MaxKeys/MaxInuse divides by the
+// number of partitions this member owns NOW. A route lists its owners oldest first, the
+// current owner is the last one (Partition.Owner()). Counting by the first owner makes a
+// member that has just taken partitions over count none of them; with a count of zero the
+// LRU limits are switched off for it entirely.
+func c10OwnedCountByCurrentOwner(r *core.Run) {
+	const rule = "owned-count-by-current-owner"
+	p := r.P
+	var stores []ssa.CallInstruction
+	for _, fn := range p.FuncList {
+		if fn.SSA == nil || skipPkg(fn) {
+			continue
+		}
+		for _, f := range core.AllSSA(fn.SSA) {
+			for _, in := range findInstrs(f, false, callTo("sync/atomic.StoreUint64")) {
+				c := in.(ssa.CallInstruction)
+				if len(c.Common().Args) == 2 && core.LastField(c.Common().Args[0]) == "ownedPartitionCount" {
+					stores = append(stores, c)
+				}
+			}
+		}
+	}
+	if len(stores) == 0 {
+		r.Unknown(rule, "store of ownedPartitionCount", "-", "no atomic store of RoutingTable.ownedPartitionCount found")
+		return
+	}
+	n := counter{}
+	for _, st := range stores {
+		// the stored value, followed through parameters to the callers' arguments
+		vals := []ssa.Value{st.Common().Args[1]}
+		if pa, ok := vals[0].(*ssa.Parameter); ok {
+			vals = nil
+			f := pa.Parent()
+			idx := -1
+			for i, q := range f.Params {
+				if q == pa {
+					idx = i
+				}
+			}
+			if o, ok := f.Object().(*types.Func); ok && idx >= 0 {
+				for _, cs := range p.CallersOf(o) {
+					for _, g := range core.AllSSA(cs.Caller.SSA) {
+						for _, in := range findInstrs(g, false, func(in ssa.Instruction) bool {
+							c, ok := in.(ssa.CallInstruction)
+							return ok && c.Common().StaticCallee() == f
+						}) {
+							args := in.(ssa.CallInstruction).Common().Args
+							if idx < len(args) {
+								vals = append(vals, args[idx])
+							}
+						}
+					}
+				}
+			}
+		}
+		good, seen := false, false
+		why := "no counter guarded by a comparison of the partition's owner with this member found"
+		for _, v := range vals {
+			// the increments feeding the counter (through the phis of the loop and of the if)
+			var incs []*ssa.BinOp
+			seenV := map[ssa.Value]bool{}
+			var collect func(v ssa.Value)
+			collect = func(v ssa.Value) {
+				if seenV[v] {
+					return
+				}
+				seenV[v] = true
+				switch x := v.(type) {
+				case *ssa.Phi:
+					for _, e := range x.Edges {
+						collect(e)
+					}
+				case *ssa.BinOp:
+					if x.Op == token.ADD {
+						incs = append(incs, x)
+						collect(x.X)
+					}
+				}
+			}
+			collect(v)
+			for _, inc := range incs {
+				for _, cd := range core.Conditions(inc.Block()) {
+					c, ok := cd.Val.(*ssa.Call)
+					if !ok || !cd.Truth {
+						continue
+					}
+					if nm := methodName(c); nm != "CompareByID" && nm != "CompareByName" {
+						continue
+					}
+					seen = true
+					recv := c.Call.Args[0]
+					if oc, ok := recv.(*ssa.Call); ok && callTo("internal/cluster/partitions.(*Partition).Owner")(oc) {
+						good = true
+					} else {
+						why = "the member compared with this one is not Partition.Owner() (the last, current owner of the route)"
+					}
+				}
+			}
+		}
+		r.Check(good && seen, rule, n.next("ownedPartitionCount"), site(r, instrPos(st)),
+			"counts the partitions whose current owner (Partition.Owner()) is this member",
+			"the number of owned partitions is not counted by the partitions' current owner ("+why+"): a member that has just taken partitions over counts none of them, and with a count of zero the MaxKeys/MaxInuse limits are switched off for it")
+	}
 }
